@@ -206,6 +206,8 @@ def generic(prop, tier, scens, claimed, rule, sim_len=12, reads_only=False, stra
                 cap_n = 900 if quick else 12000
                 if len(hs) > cap_n:
                     hs = random.Random(common.seed()).sample(hs, cap_n)
+                if scen == "shared" and not reads_only:
+                    hs = writeback_histories(kind) + hs
                 hs = [close_contexts(h) for h in hs]
                 for h in hs:
                     run._distinct.add(val.canon(h))
@@ -219,6 +221,43 @@ def generic(prop, tier, scens, claimed, rule, sim_len=12, reads_only=False, stra
         from . import chk_contract
         chk_contract.buffered_histories(run, prop, tier)
     return run.finish()
+
+
+def writeback_histories(kind):
+    """Systematic inputs for two objects on one file inside one context: A writes, B reads the intermediate state,
+    A writes the document BACK to exactly what the file holds, B reads again (and then writes something else):
+    B must follow every step although the buffered bytes equal the loaded ones again."""
+    S = lambda a: {"t": a}  # noqa: E731
+    NONE = val.NONE
+    if kind == "d":
+        doc = {"t": "d", "m": {"a": S("i1")}}
+        forth = [({"op": "setitem", "k": "b", "x": S("i2")}, {"op": "delitem", "k": "b"}),
+                 ({"op": "setitem", "k": "a", "x": S("i2")}, {"op": "setitem", "k": "a", "x": S("i1")})]
+        reads = [{"op": "call"}, {"op": "len"}]
+        later = {"op": "setitem", "k": "z", "x": S("n")}
+    else:
+        doc = {"t": "l", "s": [S("i1")]}
+        forth = [({"op": "append", "x": S("i2")}, {"op": "pop", "i": NONE}),
+                 ({"op": "setitem", "i": 0, "x": S("i2")}, {"op": "setitem", "i": 0, "x": S("i1")})]
+        reads = [{"op": "call"}, {"op": "len"}]
+        later = {"op": "append", "x": S("n")}
+    out = []
+    for (w1, w2) in forth:
+        for r in reads:
+            for enter in ([{"a": "enterB", "c": NONE}], [{"a": "enterO", "o": "A"}, {"a": "enterO", "o": "B"}]):
+                for (x, y) in (("A", "B"), ("B", "A")):
+                    h = [{"a": "init", "docs": {"f1": doc}, "ex": {"f1": True}}] + [dict(e) for e in enter]
+                    h += [{"a": "op", "o": x, "op": w1}, {"a": "op", "o": y, "op": r}, {"a": "op", "o": x, "op": w2},
+                          {"a": "op", "o": y, "op": r}, {"a": "op", "o": y, "op": later}, {"a": "op", "o": x, "op": {"op": "call"}}]
+                    out.append(h)
+                    # two buffered sections: x reads in the first; between them x writes and y undoes it UNBUFFERED
+                    # (the file is byte-identical again); in the second y touches the file first, then x writes
+                    h2 = [{"a": "init", "docs": {"f1": doc}, "ex": {"f1": True}}] + [dict(e) for e in enter]
+                    h2 += [{"a": "op", "o": x, "op": r}] + [{"a": "exit"}] * len(enter)
+                    h2 += [{"a": "op", "o": x, "op": w1}, {"a": "op", "o": y, "op": w2}] + [dict(e) for e in enter]
+                    h2 += [{"a": "op", "o": y, "op": r}, {"a": "op", "o": x, "op": later}, {"a": "op", "o": y, "op": {"op": "call"}}]
+                    out.append(h2)
+    return out
 
 
 READS = {"getitem", "call", "len", "contains", "get", "keys", "items", "iter"}
